@@ -396,7 +396,11 @@ func judgeGrowth(rep *vh.Reporter, sigOf func(symptom string) string, label stri
 		for k, v := range witness {
 			w[k] = v
 		}
-		rep.Violation(sigOf(metric), fmt.Sprintf("%s: %s at quiescence after Close: %d before, %d after %d cycles (exchange stalled, Close, peer continues), %d after %d more - it grows with the number of cycles", label, metric, x0[metric], x1[metric], n, x2[metric], 2*n), w)
+		cycleIs := "exchange stalled, Close, peer continues"
+		if s, ok := witness["cycle_is"].(string); ok {
+			cycleIs = s
+		}
+		rep.Violation(sigOf(metric), fmt.Sprintf("%s: %s at quiescence after Close: %d before, %d after %d cycles (%s), %d after %d more - it grows with the number of cycles", label, metric, x0[metric], x1[metric], n, cycleIs, x2[metric], 2*n), w)
 		leaked = true
 	}
 	return leaked
